@@ -26,7 +26,7 @@
     ensures wf(r), forall|x: real| contains(self, x) ==> contains(r, -x),
 @fn Bounds::scale -> r
     requires wf(self), finite(coefficient),
-    ensures wf(r), forall|x: real| contains(self, x) ==> contains(r, rmul(x, rv(coefficient))),
+    ensures wf(r), forall|x: real| #![trigger contains(self, x)] #![trigger contains(r, rmul(x, rv(coefficient)))] contains(self, x) ==> contains(r, rmul(x, rv(coefficient))),
 @fn Bounds::scale @entry
     proof { lemma_mul_mono(self, coefficient); }
 @fn Bounds::div_by -> r
